@@ -224,6 +224,9 @@ struct Obs {
     panics: usize,
     ms: u128,
     timed_out: bool,
+    /// liveness probe after the step: an uncached (ef override) search for a live document's own vector;
+    /// Ok(number of hits) / Err(status).  None when the census shows no live document.
+    probe: Option<Result<usize, String>>,
 }
 
 fn run_script(sc: &Script) -> Result<(Vec<Obs>, f64), String> {
@@ -275,9 +278,17 @@ fn run_script(sc: &Script) -> Result<(Vec<Obs>, f64), String> {
             Ok(c) => (Some(c), None),
             Err(e) => (None, Some(e)),
         };
+        let probe = cen.as_ref().and_then(|c| c.iter().find_map(|(_, d)| d.as_ref().map(|(bits, _)| bits.iter().map(|b| f32::from_bits(*b)).collect::<Vec<f32>>()))).map(|v| {
+            let mut rq = SearchReq::new(&v, 10);
+            rq.ef_search = 64; // an ef override bypasses the query cache: the tiers themselves must answer
+            match s.search(Some(&key), &rq) {
+                Ok(o) => Ok(o.hits.len()),
+                Err(e) => Err(format!("{:?}: {}", e.code, e.message)),
+            }
+        });
         deadline.store(0, Ordering::SeqCst);
         let pl = panic_lines(&s);
-        out.push(Obs { resp, census: cen, census_err: cen_err, health, panics: pl.saturating_sub(panics_before), ms, timed_out });
+        out.push(Obs { resp, census: cen, census_err: cen_err, health, panics: pl.saturating_sub(panics_before), ms, timed_out, probe });
         panics_before = pl;
         if !s.is_running() {
             // the process died: restart it so that the remaining steps still run (the oracle reports the death)
@@ -700,6 +711,12 @@ fn judge(sc: &Script, obs: &[Obs], max_batch: u64, decode_depth: u64) -> Judged 
         }
         if o.panics > 0 {
             fail(format!("{} panic line(s) appeared in the server log during this step", o.panics));
+        }
+        // O1b the server keeps SERVING: a valid, uncached search for a live document's own vector finds something
+        match &o.probe {
+            Some(Ok(0)) => fail("after this request a valid search (ef override, k=10) for a live document's own vector returns no hits: the server no longer serves searches".to_string()),
+            Some(Err(e)) => fail(format!("after this request a valid search (ef override, k=10) for a live document's own vector is refused: {}", e)),
+            _ => {}
         }
         match &o.resp {
             Resp::Insert(_, _, f) | Resp::BulkLoad(_, _, f) if *f > 0 => j.item_failures += 1,
